@@ -53,6 +53,8 @@ type EngScenario struct {
 	ROrder   []int      `json:"rorder"`   // the runner nodes in candidate iteration order (computed here from order)
 	All      bool       `json:"all"`      // finally look every pool component up through Factory.GetComponents(InterfaceType(Nd))
 	RawOrder bool       `json:"rawOrder"` // do not wrap the definition registry: candidates come in the real registry's own order
+	Prewire  [][]int    `json:"prewire"`  // per node: single-valued targets whose field the user filled by hand (raw object) before the start
+	Late     []bool     `json:"late"`     // per node: its slice point is served by a user-written collector that runs after further matching (custom tag, optional)
 	Conf     bool       `json:"conf"`     // the start has a configuration document (derived from the seed): the nodes' own value / prop / prefix points
 	KSeed    int64      `json:"kseed"`    // seed of the edge realisation (which field / tag form carries each edge); 0 = Seed.
 	// The realisation decides the declaration order of a holder's injection points, i.e. it is part of the component SET;
@@ -170,6 +172,8 @@ type env struct {
 	lastWe     map[int]any
 	aborted    bool
 	ap         *app.App
+	defs       container.DefinitionRegistry
+	lateOf     map[string][]int // holder name -> the targets its user-written collector hands in (the holder included when listed)
 }
 
 type reentry struct{ n int }
@@ -442,6 +446,18 @@ func (r *rigCore) PostProcessAfterInstantiation(component any, name string) (boo
 }
 func (r *rigCore) PostProcessProperties(ps []*component_definition.Property, component any, name string) ([]*component_definition.Property, error) {
 	if id := r.e.idOf(name); id != 0 {
+		// the user-written collector of "late" points: this processor is unordered, i.e. it runs after the library's
+		// collectors and after further matching; it hands in the definitions of the scenario's targets in enumeration order
+		for _, p := range ps {
+			if p.Tag == "late" && r.e.defs != nil {
+				p.Injects = nil
+				for _, m := range r.e.defs.GetMetas() {
+					if t := r.e.idOf(m.Name()); t != 0 && contains(r.e.lateOf[name], t) {
+						p.Injects = append(p.Injects, m)
+					}
+				}
+			}
+		}
 		fail := r.e.sc.Fail[id-1] == "resolve"
 		r.e.emit("resolve", id, map[string]any{"ok": !fail})
 		if fail {
@@ -556,6 +572,17 @@ func runEngScenario(sc *EngScenario) []map[string]any {
 	}
 	rnd := rand.New(rand.NewSource(sc.KSeed))
 	sc.Conf = sc.Seed%2 == 1
+	if len(sc.Late) != sc.N {
+		sc.Late = make([]bool, sc.N)
+	}
+	if len(sc.Prewire) != sc.N {
+		sc.Prewire = make([][]int, sc.N)
+	}
+	for i := range sc.Prewire {
+		if sc.Prewire[i] == nil {
+			sc.Prewire[i] = []int{}
+		}
+	}
 	if sc.Runners == nil {
 		sc.Runners = []int{}
 	}
@@ -567,7 +594,7 @@ func runEngScenario(sc *EngScenario) []map[string]any {
 	}
 	chooseKinds(sc, rnd)
 	e := &env{sc: sc, objTag: map[any]string{}, objNode: map[any]int{}, metaKind: map[*component_definition.Meta]string{},
-		earlyRan: make([]int, sc.N), earlyTotal: make([]int, sc.N), creating: map[int]bool{}, lastWe: map[int]any{}}
+		earlyRan: make([]int, sc.N), earlyTotal: make([]int, sc.N), creating: map[int]bool{}, lastWe: map[int]any{}, lateOf: map[string][]int{}}
 	e.objs = make([]any, sc.N+1)
 	e.assign = make([][]fieldAssign, sc.N+1)
 	comps := make([]any, sc.N+1)
@@ -608,7 +635,11 @@ func runEngScenario(sc *EngScenario) []map[string]any {
 			fields[fname] = tag
 			e.assign[i] = append(e.assign[i], fieldAssign{fname, t})
 		}
-		if len(sc.Slice[i-1]) > 0 {
+		if len(sc.Slice[i-1]) > 0 && sc.Late[i-1] {
+			sc.SliceOpt[i-1] = true
+			fields["L"] = "late:,required=false"
+			e.lateOf[nodeName(i)] = sc.Slice[i-1]
+		} else if len(sc.Slice[i-1]) > 0 {
 			opt := ""
 			if sc.SliceOpt[i-1] {
 				opt = ",required=false"
@@ -626,12 +657,26 @@ func runEngScenario(sc *EngScenario) []map[string]any {
 		}
 		tab[nodeName(i)] = fields
 	}
+	// fields the user wired by hand before the start (must not influence anything)
+	for i := 1; i <= sc.N; i++ {
+		rv := reflect.ValueOf(comps[i]).Elem()
+		for _, fa := range e.assign[i] {
+			if fa.target != i && contains(sc.Prewire[i-1], fa.target) {
+				if f := rv.FieldByName(fa.field); f.IsValid() && f.CanSet() && reflect.TypeOf(comps[fa.target]).AssignableTo(f.Type()) {
+					f.Set(reflect.ValueOf(comps[fa.target]))
+				}
+			}
+		}
+	}
 	r := &rigCore{e: e}
 	r.NodeType = component_definition.PropertyTypeComponent
 	r.Required = true
 	r.ExtractHandler = func(meta *component_definition.Meta, field *component_definition.Field) (string, string, bool) {
 		if m, ok := tab[meta.Name()]; ok {
 			if tv, ok := m[field.StructField.Name]; ok {
+				if strings.HasPrefix(tv, "late:") {
+					return "late", tv[5:], true
+				}
 				return "wire", tv, true
 			}
 		}
@@ -643,6 +688,7 @@ func runEngScenario(sc *EngScenario) []map[string]any {
 	if sc.RawOrder {
 		defReg = support.DefaultDefinitionRegistry()
 	}
+	e.defs = defReg
 	f := factory.NewWithRegistries(defReg, &traceReg{e, inner})
 	ap := app.NewApp()
 	e.ap = ap
